@@ -27,7 +27,10 @@
       end of the text, changes neither kinds, lexemes nor the kind of ending ([block_comment_in_front],
       [line_comment_in_front], [comment_after_a_token]); a comment begins with a slash and a slash extends no token, so
       the premises of [comment_after_a_token] hold at every token boundary.  (That the scanner's comments are the
-      DOCUMENTED comments is C05's bisimulation.) *)
+      DOCUMENTED comments is C05's bisimulation.)
+   7. POSITIONS: the position of every token and of a lexical error is the one reached by advancing over exactly the text
+      in front of it ([positions_are_those_of_the_text_in_front]); inserted text therefore moves the positions behind it by
+      exactly itself ([inserted_text_moves_positions_by_itself]). *)
 From Coq Require Import List Bool Arith NArith.
 From Verif Require Import Reg.Dfa Reg.TwoBuf Reg.MaxMunch Reg.Layout Emerge.Pipeline.
 From VerifGen Require Import LexerGo.
@@ -236,3 +239,24 @@ Example comments_exist :
   is_line_comment [47; 47; 32; 120; 32; 47; 42]%N /\                        (* a line comment containing slash-star *)
   ~ is_block_comment [47; 42; 32; 42]%N.
 Proof. unfold is_block_comment, is_line_comment. vm_compute. repeat split; try reflexivity. discriminate. Qed.
+
+(* ---- positions: "reported positions move by exactly the inserted text" ---- *)
+(* the position of every token, and of a lexical error, is the position reached by advancing (offset, line, column) over
+   exactly the text in front of it; hence text inserted anywhere in front of a token moves its position by exactly that text:
+   pos_adv p (inserted ++ before) = pos_adv (pos_adv p inserted) before *)
+Theorem positions_are_those_of_the_text_in_front s :
+  let r := tokens (Dfa.step go_dfa) go_cls s in
+  Forall (placed pos0 s) (fst r) /\
+  match snd r with
+  | EndError p' u => exists pre rest, s = pre ++ u ++ rest /\ p' = pos_adv pos0 pre
+  | _ => True
+  end.
+Proof.
+  intros r. exact (lexes_positions (Dfa.step go_dfa) go_cls pos0 s (fst r) (snd r)
+                     (tokens_spec (Dfa.step go_dfa) go_cls go_start_not_accepting s)).
+Qed.
+Print Assumptions positions_are_those_of_the_text_in_front.
+
+Theorem inserted_text_moves_positions_by_itself p ins before : pos_adv p (ins ++ before) = pos_adv (pos_adv p ins) before.
+Proof. exact (pos_adv_app p ins before). Qed.
+Print Assumptions inserted_text_moves_positions_by_itself.
